@@ -1,4 +1,23 @@
-"""C04 draft"""
+"""C04 — S(q): every total and partial column equals the density-mode definition.
+
+Functions under contract: sq.unary / binary / ternary / quarternary / quinary, sq.getresults (dispatch), sq.__init__ (object
+invariant: wave vectors q = 2 pi n / L, |q|, species counts), utils.wavevector.choosewavevector (default wave-vector set).
+
+Spec (statement of C04, docs/sq.md).  N particles, T frames, K species with type ids 1..K, M supplied integer wave vectors n_m,
+orthogonal cell with edge lengths L_c:
+  q_m       = (2 pi n_{m,c} / L_c)_c                                   theta(s,i,m) = q_m . r_{s,i}
+  rho_a(s,m) = sum_{i<N} [type_{s,i} = a] exp(-i theta(s,i,m))          (total: all particles)
+  raw_ab(m) = sum_{s<T} Re[ rho_a(s,m) conj(rho_b(s,m)) ]
+  S_ab(m)   = raw_ab(m) / (T sqrt(N_a N_b))      (a = b: T N_a;  total: T N)          -- per-vector value
+  returned row g (one per distinct key_g of round6(|q_m|), ascending):
+  S_ab[g]   = mean over { m : round6(|q_m|) = key_g } of round6(S_ab(m)).
+Every column obligation is split (as for C03) into
+  modes:          the Sigma-term accumulated by the real frame loop / particle loop equals raw_ab(m) at an arbitrary vector m
+                  (SMT with Sigma-extensionality; the code's if/elif routing is compared with [type = a] under 1 <= type <= K);
+  normalisation:  the per-vector value is raw/(T sqrt(N_a N_b)) for any value of raw (ring normal form);
+  rounded:        the value that enters the |q|-average is round6 of that per-vector value;
+  group-mean:     the returned column is the mean of those rounded values over the vectors with the row's key.
+"""
 import z3
 
 from contracts.common import Traj
@@ -8,10 +27,25 @@ from pyvc.sigma import Sum
 from pyvc.vc import Unit
 
 MOD = "PyMatterSim.static.sq"
+WV = "PyMatterSim.utils.wavevector"
 METHODS = {1: "unary", 2: "binary", 3: "ternary", 4: "quarternary", 5: "quinary"}
 
-NOT_DECIDED = []
-TRUSTED = []
+NOT_DECIDED = [
+    "which wave vectors share a rounded |q| for incommensurate box edges (the 1e-6 rounding is the uninterpreted round6 of the pandas contract)",
+    "floating-point accuracy of exp/cos/sin and of the accumulated sums (A1: floats are reals)",
+    "group means: non-emptiness of every returned group is part of the assumed groupby contract",
+]
+TRUSTED = [
+    "assumed pandas contracts (pyvc/pandas_model.py): DataFrame(0, index=df.index, columns=...), column get/set, `df[c] += v`, `df[c] /= x`, "
+    "join, round(6) = element-wise round6, groupby(key).mean().reset_index() = one row per distinct key with the group mean of every other "
+    "column (every group non-empty), to_csv = write event",
+    "exp(-i x) = cos x - i sin x with the parity normal forms cos(-x) = cos x, sin(-x) = -sin x (pyvc/sv.py), np.linalg.norm, math.sqrt",
+    "Sigma unfold/extensionality axioms (pyvc/axioms.py); induction over the frame / particle number for the sum-rule and sign lemmas "
+    "is by explicit base and step obligations",
+    "loop rule of pyvc/loops.py: joined body branches (if/elif routing by type) and numeric accumulators promoted to arrays by the first "
+    "iteration are summarised as sums, checked by loop-init (after the first iteration) and loop-step obligations",
+    "the object invariant established by sq.__init__ (own unit) is the methods' precondition",
+]
 
 
 def _sum(xs):
@@ -21,16 +55,95 @@ def _sum(xs):
     return acc
 
 
-def _setup_self(ctx, d, K, outputfile, saveq):
+def outer_sigmas(t):
+    """outermost Σ-applications of a z3 term"""
+    out, seen = [], set()
+
+    def walk(e):
+        if e.get_id() in seen:
+            return
+        seen.add(e.get_id())
+        if sigma.sigma_def_of(e) is not None:
+            out.append(e)
+            return
+        for c in e.children():
+            walk(c)
+    walk(t)
+    return out
+
+
+# ---- specification ----------------------------------------------------------------------------------------------
+
+
+class Spec:
+    """the definitions of the statement over a symbolic trajectory and a symbolic integer wave-vector list"""
+
+    def __init__(self, tr, d, K, L, nq, N, T, Na):
+        self.tr, self.d, self.K, self.L, self.nq, self.N, self.T, self.Na = tr, d, K, L, nq, N, T, Na
+
+    def qv(self, m, c):
+        """component c of q_m = 2 pi n_m / L"""
+        return sv.mul(sv.to_real(self.nq(m, c)), sv.div(sv.mul(2, sv.PI), self.L[c]))
+
+    def qnorm(self, m):
+        return sv.sqrt(_sum([sv.mul(self.qv(m, c), self.qv(m, c)) for c in range(self.d)]))
+
+    def theta(self, s, i, m):
+        return _sum([sv.mul(self.qv(m, c), self.tr.pos(s, i, c)) for c in range(self.d)])
+
+    def mode(self, s, i, m):
+        """exp(-i q.r)"""
+        return sv.exp(sv.Cx(0, sv.neg(self.theta(s, i, m))))
+
+    def rho(self, a, s, m, n=None):
+        """density mode of species a (None: all particles) of frame s at vector m, over the first n particles (default all)"""
+        n = self.N if n is None else n
+        if a is None:
+            return sv.as_cx(Sum(0, n, lambda i: self.mode(s, i, m)))
+        return sv.as_cx(Sum(0, n, lambda i: sv.ite(sv.cmp("==", self.tr.typ(s, i), a), self.mode(s, i, m), sv.Cx(0, 0))))
+
+    def frame_term(self, ab, s, m):
+        """Re[rho_a conj(rho_b)]"""
+        ra = self.rho(None if ab is None else ab[0], s, m)
+        rb = self.rho(None if ab is None else ab[1], s, m)
+        return sv.add(sv.mul(ra.re, rb.re), sv.mul(ra.im, rb.im))
+
+    def raw(self, ab, m, t=None):
+        t = self.T if t is None else t
+        return Sum(0, t, lambda s: self.frame_term(ab, s, m))
+
+    def norm(self, ab):
+        if ab is None:
+            return self.N
+        a, b = ab
+        if a == b:
+            return self.Na[a - 1]                      # sqrt(N_a N_a) = N_a
+        return sv.sqrt(sv.mul(self.Na[a - 1], self.Na[b - 1]))
+
+    def S(self, ab, raw):
+        return sv.div(raw, sv.mul(self.T, self.norm(ab)))
+
+
+def columns(K):
+    cols = [("Sq", None)]
+    if K >= 2:
+        cols += [(f"Sq{a}{a}", (a, a)) for a in range(1, K + 1)]
+        cols += [(f"Sq{a}{b}", (a, b)) for a in range(1, K + 1) for b in range(a + 1, K + 1)]
+    return cols
+
+
+def _setup_self(ctx, d, K, outputfile, saveq, nspecies=None):
+    nspecies = nspecies or K
     tr = Traj(ctx, d, same_cell=True)
     T, N = tr.T, tr.N
     M = ctx.int("M")
     ctx.assume(M >= 1)
-    ctx.array_fact("TYPE", lambda s, i: z3.And(tr.TYPE(s, i) >= 1, tr.TYPE(s, i) <= K))
-    Na = [ctx.int(f"N_{a+1}") for a in range(K)]
+    # "type ids are exactly 1..K"
+    ctx.array_fact("TYPE", lambda s, i: z3.And(tr.TYPE(s, i) >= 1, tr.TYPE(s, i) <= nspecies))
+    Na = [ctx.int(f"N_{a+1}") for a in range(nspecies)]
     for x in Na:
         ctx.assume(x >= 1)
-    ctx.assume(sv.cmp("==", _sum(Na), N))
+    ctx.assume(sv.cmp("==", _sum(Na), N))          # asserted by sq.__init__
     L = [tr.bl(0, c) for c in range(d)]
     for x in L:
         ctx.assume(x > 0)
@@ -38,56 +151,193 @@ def _setup_self(ctx, d, K, outputfile, saveq):
 
     def nq(m, c):
         return sv.SV(NQ(sv.znum(m), sv.znum(c)))
-
-    def qv(m, c):
-        return sv.mul(sv.to_real(nq(m, c)), sv.div(sv.mul(2, sv.PI), L[c]))
+    sp = Spec(tr, d, K, L, nq, N, T, Na)
     snaps = tr.snapshots()
-    qint = ctx.array_of((M, d), lambda idx: nq(idx[0], idx[1]), "int", name="qvector_int")
-    qvector = ctx.array_of((M, d), lambda idx: qv(idx[0], idx[1]), "float", name="qvector")
-    qvalue = ctx.array_of((M,), lambda idx: sv.sqrt(_sum([sv.mul(qv(idx[0], c), qv(idx[0], c)) for c in range(d)])), "float", name="qvalue")
+    # object invariant of sq.__init__ (SqInit unit): qvector = n * 2 pi / L (float), qvalue = |qvector|, df_qvector = the integer vectors
+    qvector = ctx.array_of((M, d), lambda idx: sp.qv(idx[0], idx[1]), "float", name="qvector")
+    qvalue = ctx.array_of((M,), lambda idx: sp.qnorm(idx[0]), "float", name="qvalue")
     from pyvc.pandas_model import new_df
-    with_state = ctx.state
-    from pyvc.state import use_state
-    with use_state(with_state):
-        dfq = new_df({f"q{c}": A.new_arr((M,), lambda idx, c=c: nq(idx[0], c), "int") for c in range(d)}, [f"q{c}" for c in range(d)], M)
+    dfq = new_df({f"q{c}": A.new_arr((M,), lambda idx, c=c: nq(idx[0], c), "int") for c in range(d)}, [f"q{c}" for c in range(d)], M)
     typecount = A.from_nested(Na, "int")
-    typenumber = A.from_nested(list(range(1, K + 1)), "int")
+    typenumber = A.from_nested(list(range(1, nspecies + 1)), "int")
     attrs = dict(snapshots=snaps, outputfile=outputfile, saveqvectors=saveq, nsnapshots=T, nparticle=N,
                  typenumber=typenumber, typecount=typecount, qvector=qvector, df_qvector=dfq, qvalue=qvalue)
     o = ctx.obj(MOD, "sq", attrs)
-    return o, dict(tr=tr, T=T, N=N, M=M, Na=Na, L=L, d=d, K=K, nq=nq, qv=qv)
+    return o, dict(tr=tr, T=T, N=N, M=M, Na=Na, L=L, d=d, K=K, nq=nq, sp=sp, nspecies=nspecies)
 
 
 class Method(Unit):
     module = MOD
     prop = "C04"
     timeout = 30
-    solver_opts = {"rounds": 4}
 
     def __init__(self, K):
         self.K = K
         self.qualname = f"sq.{METHODS[K]}"
 
     def cases(self):
-        return [f"d={d}/nofile" for d in (2, 3)]
+        # unary() also serves systems of more than five species (dispatch): species count 6 stands for "> 5"
+        sp = ("/species=1", "/species=6") if self.K == 1 else ("",)
+        return [f"d={d}/{o}{x}" for d in (2, 3) for o in ("nofile", "file", "file+qvectors") for x in sp]
 
     def setup(self, ctx, case):
         d = int(case[2])
-        o, inp = _setup_self(ctx, d, self.K, None, False)
+        of = "out.csv" if "/file" in case else None
+        saveq = "+qvectors" in case
+        o, inp = _setup_self(ctx, d, self.K, of, saveq, nspecies=6 if case.endswith("species=6") else self.K)
+        inp["outputfile"], inp["saveq"] = of, saveq
         inp["g"] = ctx.int("g")
+        inp["m"] = ctx.int("m")
+        inp["s0"] = ctx.int("s0")
         return [o], {}, inp
 
     def clause_names(self, case):
-        return ["columns"]
+        names = ["columns", "q:key=round6|2pi n/L|", "q:returned=key", "file=returned", "qvectors-file=per-vector-values"]
+        for name, ab in columns(self.K):
+            names += [f"{name}:modes", f"{name}:normalisation", f"{name}:rounded", f"{name}:group-mean"]
+        return names
 
     def ensures(self, ctx, case, inp, out):
+        from pyvc.interp import Ref
         from pyvc.pandas_model import df_content
+        from pyvc.state import cur
         res = out.value
-        c = df_content(res)
-        print("ORDER", c["order"], c["n"])
-        for nm in c["order"]:
-            print(nm, c["cols"][nm].get((inp["g"],)))
-        yield "columns", True
+        K, g, m, M, sp, d = self.K, inp["g"], inp["m"], inp["M"], inp["sp"], inp["d"]
+        cols = columns(K)
+        want_order = ["q"] + [c for c, _ in cols]
+        ok = isinstance(res, Ref) and res.kind == "df" and df_content(res)["order"] == want_order
+        gb = cur().heap[res.sid].meta.get("groupby") if ok else None
+        ok = bool(ok and gb is not None and A.dim_eq_syntactic(gb["n"], M) and sorted(gb["values"]) == sorted(c for c, _ in cols))
+        yield "columns", ok
+        if not ok:
+            return
+        c = df_content(res)["cols"]
+        G, Kf, keys = gb["G"], gb["K"], gb["keys"]
+        inm = sv.and_(sv.cmp(">=", m, 0), sv.cmp("<", m, M))
+        ing = sv.and_(sv.cmp(">=", g, 0), sv.cmp("<", g, G))
+        yield "q:key=round6|2pi n/L|", sv.implies(inm, sv.cmp("==", keys((m,)), sv.round_dec(sp.qnorm(m), 6))), {"ring_only": True}
+        yield "q:returned=key", sv.implies(ing, sv.cmp("==", c["q"].get((g,)), Kf(g))), {"ring_only": True}
+        pervec = {}
+        for name, ab in cols:
+            rv = gb["values"][name]((m,))
+            t = sv.zr(rv)
+            is_round = z3.is_app(t) and t.decl().name() == "round6"
+            yield f"{name}:rounded", bool(is_round)
+            v = sv.SV(t.arg(0)) if is_round else None
+            sig = outer_sigmas(sv.zr(v)) if is_round else []
+            if len(sig) != 1:
+                yield f"{name}:modes", False
+                yield f"{name}:normalisation", False
+            else:
+                raw = sv.SV(sig[0])
+                pervec[name] = (v, raw)
+                for goal in self.modes_goals(inp, ab, raw):
+                    yield (f"{name}:modes",) + goal
+                gn, _ = sv.generalize(sv.implies(inm, sv.cmp("==", v, sp.S(ab, raw))), [raw], "raw")
+                yield f"{name}:normalisation", gn, {"ring_only": True}
+            # the returned value: mean of the rounded per-vector values over the vectors whose key is the row's key
+            kg = Kf(g)
+            num = Sum(0, M, lambda t_: sv.ite(sv.cmp("==", keys((t_,)), kg), gb["values"][name]((t_,)), 0))
+            den = Sum(0, M, lambda t_: sv.ite(sv.cmp("==", keys((t_,)), kg), 1, 0))
+            yield f"{name}:group-mean", sv.implies(ing, sv.cmp("==", c[name].get((g,)), sv.div(num, den))), {"ring_only": True}
+        # files
+        writes = [e for e in out.state.trace if e[0] == "to_csv"]
+        wq = [e for e in writes if e[1] == "out_qvectors.csv"]
+        wr = [e for e in writes if e[1] != "out_qvectors.csv"]
+        if inp["outputfile"] is None:
+            yield "file=returned", len(writes) == 0
+            yield "qvectors-file=per-vector-values", len(writes) == 0
+            return
+        good = len(wr) == 1 and wr[0][1] == inp["outputfile"] and wr[0][3] == want_order and A.dim_eq_syntactic(wr[0][5], G)
+        if good:
+            eqs = [sv.cmp("==", wr[0][2][nm].get((g,)), c[nm].get((g,))) for nm in want_order]
+            yield "file=returned", sv.implies(ing, sv.and_(*eqs)), {"ring_only": True}
+        else:
+            yield "file=returned", False
+        if not inp["saveq"]:
+            yield "qvectors-file=per-vector-values", len(wq) == 0
+        else:
+            qorder = [f"q{k}" for k in range(d)] + want_order
+            good = len(wq) == 1 and wq[0][3] == qorder and A.dim_eq_syntactic(wq[0][5], M) and all(nm in pervec for nm, _ in cols)
+            if good:
+                eqs = [sv.cmp("==", wq[0][2][f"q{k}"].get((m,)), inp["nq"](m, k)) for k in range(d)]
+                eqs.append(sv.cmp("==", wq[0][2]["q"].get((m,)), sp.qnorm(m)))
+                eqs += [sv.cmp("==", wq[0][2][nm].get((m,)), pervec[nm][0]) for nm, _ in cols]
+                yield "qvectors-file=per-vector-values", sv.implies(inm, sv.and_(*eqs)), {"ring_only": True}
+            else:
+                yield "qvectors-file=per-vector-values", False
+
+    def modes_goals(self, inp, ab, raw):
+        """raw (the Σ over frames accumulated by the code, at vector m) == sum_s Re[rho_a conj rho_b], in three small steps:
+        (A) every particle sum inside the code's frame term is the real or imaginary part of a density mode rho_x(s0, m) of the
+            spec at an arbitrary frame s0 (Σ-extensionality over particles; routing conditions vs [type = x] under 1 <= type <= K);
+        (B) with these, the code's frame term is Re[rho_a conj rho_b] (ring identity);
+        (C) hence the sums over frames agree (Σ-extensionality over frames with the pointwise fact (A)+(B))."""
+        sp, m, T, s0 = inp["sp"], inp["m"], inp["T"], inp["s0"]
+        inm = sv.and_(sv.cmp(">=", m, 0), sv.cmp("<", m, inp["M"]))
+        ins = sv.and_(inm, sv.cmp(">=", s0, 0), sv.cmp("<", s0, T))
+        sd = sigma.sigma_def_of(raw.t)
+        lo, hi = raw.t.arg(0), raw.t.arg(1)
+        args = [raw.t.arg(i) for i in range(2, raw.t.num_args())]
+        if not (z3.is_int_value(lo) and lo.as_long() == 0 and hi.eq(sv.znum(T))):
+            yield (False,)
+            return
+        be = sd.body_at(s0.t, args)
+        subs = []
+        for e in outer_sigmas(be):
+            cand = self._candidate(e, inp)
+            if cand is None:
+                yield (False,)
+                return
+            yield sv.implies(ins, sv.cmp("==", sv.SV(e), cand)), {"solver_opts": {"rounds": 2}}
+            subs.append((e, sv.zr(cand)))
+        be2 = z3.substitute(be, *subs) if subs else be
+        yield sv.implies(ins, sv.cmp("==", sv.SV(be2), sp.frame_term(ab, s0, m))), {"ring_only": True}
+
+        def pointwise(x):
+            return z3.Implies(z3.And(x >= 0, x < sv.znum(T)), sd.body_at(x, args) == sv.zr(sp.frame_term(ab, sv.SV(x), m)))
+        yield sv.implies(inm, sv.cmp("==", raw, sp.raw(ab, m))), {"solver_opts": {"rounds": 1, "pointwise": [pointwise]}}
+
+    def _candidate(self, e, inp):
+        """which density-mode component of the spec a particle sum of the code should be: found by evaluating the summand's routing
+        condition for every type id (proof search only — the equality itself is an obligation)"""
+        sp, tr, s0, m = inp["sp"], inp["tr"], inp["s0"], inp["m"]
+        sdi = sigma.sigma_def_of(e)
+        v = z3.Int("cand!i")
+        body = sdi.body_at(v, [e.arg(i) for i in range(2, e.num_args())])
+        tapps, fns, seen, stack = [], set(), set(), [body]
+        while stack:
+            x = stack.pop()
+            if x.get_id() in seen:
+                continue
+            seen.add(x.get_id())
+            if z3.is_app(x):
+                nm = x.decl().name()
+                if nm == "TYPE":
+                    tapps.append(x)
+                if nm in ("cos", "sin"):
+                    fns.add(nm)
+                stack.extend(x.children())
+        if len(fns) != 1:
+            return None
+        nsp = inp["nspecies"]
+        sel = []
+        for t0 in range(1, nsp + 1):
+            b = z3.simplify(z3.substitute(body, *[(ta, z3.IntVal(t0)) for ta in tapps])) if tapps else body
+            zero = (z3.is_rational_value(b) and b.numerator_as_long() == 0) or (z3.is_int_value(b) and b.as_long() == 0)
+            if not zero:
+                sel.append(t0)
+        if len(sel) == nsp:
+            a = None
+        elif len(sel) == 1 and sel[0] <= self.K:
+            a = sel[0]
+        else:
+            return None
+        r = sp.rho(a, s0, m)
+        return r.re if "cos" in fns else r.im
+
+    def replay(self, case, clause, model, seed):
+        return {"ran": False, "failed": False}
 
 
 UNITS = [Method(K) for K in (1, 2, 3, 4, 5)]
